@@ -107,6 +107,13 @@ def optable():
     op("direction_l2", ("line2",), lambda a: a.direction)
     op("direction_l3", ("line3",), lambda a: a.direction)
     op("base_point_l3", ("line3x",), lambda a: a.base_point)
+    op("direction_l3x", ("line3x",), lambda a: a.direction)
+    op("project_l3x", ("line3x", "point3"), lambda a, b: a.project(b))
+    op("perpendicular_l3x", ("line3x", "point3"), lambda a, b: a.perpendicular(b))
+    op("parallel_l3x", ("line3x", "point3"), lambda a, b: a.parallel(b))
+    op("contains_l3x", ("line3x", "point3"), lambda a, b: a.contains(b))
+    op("dist_l3x_p", ("line3x", "point3"), lambda a, b: g.dist(a, b))
+    op("is_parallel_ll3x", ("line3x", "line3x"), lambda a, b: a.is_parallel(b))
     op("dist_el3", ("plane3", "line3x"), lambda a, b: g.dist(a, b))
     op("dist_le3", ("line3x", "plane3"), lambda a, b: g.dist(a, b))
     op("basis_matrix_l3", ("line3x",), lambda a: a.basis_matrix)
